@@ -216,20 +216,28 @@ Definition FSZ_HEADER := 32.      Definition FSZ_DIRENT := 12.
 Definition ALLOC_C := 4.
 
 (* ---- thread list *)
-Definition read_thread_list (p : profile) (e : endian) (b : bytes) : M Z :=
+Definition read_thread_list (p : profile) (e : endian) (b : bytes) : M (list bytes) :=
   bnd raws <- read_stream_list p e b FSZ_THREAD MSZ_THREAD_RAW ;;
   bnd _ <- alloc (blen raws * MSZ_THREAD) ;;
-  ret (blen raws).
+  ret raws.
 
 (* ---- memory list: unreadable regions are skipped *)
 Definition memory_ok (e : endian) (all : bytes) (d : bytes) : bool :=
   let size := val e (sub d 8 4) in let rva := val e (sub d 12 4) in
   if (rva =? 0) || (size =? 0) then false
   else match location_slice all size rva with Some _ => true | None => false end.
-Definition read_memory_list (p : profile) (e : endian) (all b : bytes) : M Z :=
+Definition read_memory_list (p : profile) (e : endian) (all b : bytes) : M (list bytes) :=
   bnd raws <- read_stream_list p e b FSZ_MEMDESC MSZ_MEMDESC_RAW ;;
   bnd _ <- alloc (blen raws * MSZ_MEMORY) ;;
-  ret (blen (filter (memory_ok e all) raws)).
+  ret (filter (memory_ok e all) raws).
+
+(* ---- MinidumpMemoryBase::get_memory_at_address::<T>(addr), T of [n] bytes:
+   `addr.checked_sub(base)? as usize`, then scroll's pread on the region's bytes *)
+Definition mem_read (n : Z) (e : endian) (base : Z) (region : bytes) (addr : Z) : option Z :=
+  match checked_sub addr base with
+  | None => None
+  | Some start => get_u n e region start
+  end.
 
 (* ---- Memory64 list: u64 count, u64 base rva, descriptors; running rva with checked_add *)
 Fixpoint mem64_regions (e : endian) (all : bytes) (rva : Z) (raws : list bytes) : res Z :=
@@ -445,6 +453,95 @@ Definition exception_print_ctx (v : version) (nparams : Z) (k : option ctxkind) 
   rbind (exception_print v nparams) (fun _ =>
   match k with Some k' => context_print v k' | None => Ok tt end).
 
+(* ---- thread contexts: MinidumpThread::context = location_slice(thread_context) + MinidumpContext::read;
+   the stack read at parse time is MinidumpMemory::read(raw.stack) *)
+Definition thread_ctx_kind (e : endian) (all : bytes) (arch : option Z) (d : bytes) : option ctxkind :=
+  match arch with
+  | None => None
+  | Some a =>
+      match location_slice all (val e (sub d 40 4)) (val e (sub d 44 4)) with
+      | Some c => context_read e a c
+      | None => None
+      end
+  end.
+Definition thread_stack_ok (e : endian) (all : bytes) (d : bytes) : bool := memory_ok e all (sub d 24 16).
+(* MinidumpThreadList::print: every thread's context goes through MinidumpContext::print *)
+Fixpoint threads_print (v : version) (ks : list (option ctxkind)) : res unit :=
+  match ks with
+  | [] => Ok tt
+  | None :: t => threads_print v t
+  | Some k :: t => rbind (context_print v k) (fun _ => threads_print v t)
+  end.
+
+(* ---- MinidumpMiscInfo::read: the largest MINIDUMP_MISC_INFO_n that fits; yields n and, for n = 5,
+   xstate_data.enabled_features *)
+Definition read_misc_info (e : endian) (b : bytes) : res (Z * Z) :=
+  if 1364 <=? blen b then Ok (5, val e (sub b 840 8))
+  else if 832 <=? blen b then Ok (4, 0)
+  else if 232 <=? blen b then Ok (3, 0)
+  else if 44 <=? blen b then Ok (2, 0)
+  else if 24 <=? blen b then Ok (1, 0)
+  else Err EStreamReadFailure.
+(* XstateFeatureIter::next, run to exhaustion (as MinidumpMiscInfo::print does):
+     while idx < features.len() { cur = idx; idx += 1; if enabled & (1 << cur) != 0 { yield features[cur] } }
+   `1 << cur` is a u64 shift (traps in debug builds when cur >= 64, masks in release),
+   `features[cur]` an index into 64 entries.  Returns the indices yielded. *)
+Definition PANIC_XSTATE_SHIFT : Z := 108.
+Definition PANIC_XSTATE_INDEX : Z := 109.
+Definition XSTATE_FEATURES : Z := 64.
+Fixpoint xstate_loop (p : profile) (fuel : nat) (idx enabled : Z) : res (list Z) :=
+  if XSTATE_FEATURES <=? idx then Ok []
+  else match fuel with
+       | O => NoFuel
+       | S fuel' =>
+           rbind (if idx <? 64 then Ok idx
+                  else match p with Debug => Pan PANIC_XSTATE_SHIFT | Release => Ok (idx mod 64) end) (fun sh =>
+           if Z.testbit enabled sh then
+             if idx <? XSTATE_FEATURES
+             then rbind (xstate_loop p fuel' (idx + 1) enabled) (fun l => Ok (idx :: l))
+             else Pan PANIC_XSTATE_INDEX
+           else xstate_loop p fuel' (idx + 1) enabled)
+       end.
+Definition xstate_iter (p : profile) (enabled : Z) : res (list Z) := xstate_loop p 64 0 enabled.
+
+(* ---- Linux text streams: linux_list_iter(bytes, sep) = lines().filter_map(split_once(sep)) with
+   both halves trimmed of ASCII whitespace and of one pair of surrounding double quotes *)
+Definition is_ws (c : Z) : bool := (c =? 32) || (c =? 9) || (c =? 10) || (c =? 12) || (c =? 13).
+Fixpoint drop_ws (l : bytes) : bytes := match l with c :: t => if is_ws c then drop_ws t else l | [] => [] end.
+Definition trim_ws (l : bytes) : bytes := rev (drop_ws (rev (drop_ws l))).
+Definition strip_quotes (l : bytes) : bytes :=
+  let t := trim_ws l in
+  match t with
+  | c :: r =>
+      if c =? 34 then
+        match rev r with
+        | c2 :: r' => if c2 =? 34 then rev r' else t
+        | [] => t
+        end
+      else t
+  | [] => t
+  end.
+Fixpoint split_on (sep : Z) (l cur : bytes) : list bytes :=
+  match l with
+  | [] => [rev cur]
+  | c :: t => if c =? sep then rev cur :: split_on sep t [] else split_on sep t (c :: cur)
+  end.
+Fixpoint split_once (sep : Z) (l pre : bytes) : option (bytes * bytes) :=
+  match l with
+  | [] => None
+  | c :: t => if c =? sep then Some (rev pre, t) else split_once sep t (c :: pre)
+  end.
+Fixpoint kv_of_lines (sep : Z) (lines : list bytes) : list (bytes * bytes) :=
+  match lines with
+  | [] => []
+  | ln :: t => match split_once sep ln [] with
+               | Some (k, v) => (strip_quotes k, strip_quotes v) :: kv_of_lines sep t
+               | None => kv_of_lines sep t
+               end
+  end.
+Definition linux_lines (b : bytes) : list bytes := split_on 10 b [].
+Definition linux_kv (sep : Z) (b : bytes) : list (bytes * bytes) := kv_of_lines sep (linux_lines b).
+
 (* ---- Minidump::read *)
 Definition MD_SIGNATURE := 1347241037.  (* 'MDMP' 0x504d444d *)
 Definition MD_VERSION := 42899.         (* 0xa793 *)
@@ -491,4 +588,7 @@ Definition get_stream {A} (all : bytes) (ds : list dirent) (ty : Z) (rd : bytes 
 Definition ST_THREAD_LIST := 3.   Definition ST_MODULE_LIST := 4.   Definition ST_MEMORY_LIST := 5.
 Definition ST_EXCEPTION := 6.     Definition ST_SYSTEM_INFO := 7.   Definition ST_MEMORY64_LIST := 9.
 Definition ST_HANDLE_DATA := 12.  Definition ST_UNLOADED := 14.     Definition ST_MEMORY_INFO := 16.
-Definition ST_THREAD_INFO := 17.  Definition ST_THREAD_NAMES := 24.
+Definition ST_THREAD_INFO := 17.  Definition ST_THREAD_NAMES := 24.  Definition ST_MISC_INFO := 15.
+Definition ST_LINUX_CPU := 1197932547.    (* 0x47670003 *)
+Definition ST_LINUX_STATUS := 1197932548. Definition ST_LINUX_LSB := 1197932549.  Definition ST_LINUX_ENVIRON := 1197932551.
+Definition ST_MOZ_LIMITS := 1299841027.   (* 0x4d7a0003 *)
